@@ -139,6 +139,27 @@ fn live_pipeline(router: &Router<Rule>, example: &Example) -> Option<Value> {
     Some(json!({"status_code": final_code, "headers": headers.iter().map(|h| json!({"name": h.name, "value": h.value})).collect::<Vec<_>>(), "body": String::from_utf8_lossy(&out), "log": log}))
 }
 
+/// one response reported by an analysis together with the rules the router matched for its example, as a Coq `pipe19`
+/// term (RIO.C19Run): the pipeline model must reproduce status, backend status, headers, log decision (and the body
+/// when no HTML body filter was dropped from the matched rules)
+fn cq_pipe(router: &Router<Rule>, example: &Example, backend: &Value, response: &Value, log: &Value) -> Option<String> {
+    let request = Request::from_example(&router.config, example).ok()?;
+    let routes = router.match_request(&request);
+    let mut html_dropped = false;
+    let mut names: BTreeSet<String> = BTreeSet::new();
+    names.insert("Location".to_string());
+    let rules: Vec<String> = routes.iter().map(|r| crate::c05::cq_rule_api(&serde_json::to_value(r.handler()).unwrap(), &mut html_dropped, &mut names)).collect();
+    let lower: Vec<(String, String)> = names.iter().map(|n| (n.clone(), n.to_lowercase())).filter(|(a, b)| a != b).collect();
+    let skipped = request.path_and_query_skipped.skipped_query_params.clone();
+    let hs: Vec<(String, String)> = response["headers"].as_array()?.iter().map(|h| (h["name"].as_str().unwrap_or("").to_string(), h["value"].as_str().unwrap_or("").to_string())).collect();
+    Some(format!("{{| p_rules := {}; p_skipped := {}; p_code := {}; p_lower := {}; p_body_cmp := {}; p_status := {}; p_backend := {}; p_headers := {}; p_body := {}; p_log := {} |}}",
+        cq_list(&rules, |x| x.clone()), match &skipped { None => "None".to_string(), Some(x) => format!("(Some {})", cq_str(x)) },
+        match example.response_status_code { None => "None".to_string(), Some(c) => format!("(Some {})", c) },
+        cq_list(&lower, |(a, b)| format!("({}, {})", cq_str(a), cq_str(b))), cq_bool(!html_dropped),
+        response["status_code"].as_u64()?, backend.as_u64()?, cq_list(&hs, |(n, v)| format!("({}, {})", cq_str(n), cq_str(v))),
+        cq_str(response["body"].as_str()?), cq_bool(log.as_bool()?)))
+}
+
 /// one hop of the redirect chain, computed independently of RedirectionLoop: the live pipeline for (url, method), the
 /// Location joined to the current url, the 301/302 method rewrite, and whether the target leaves the project's domains
 fn one_hop(router: &Router<Rule>, example: &Example, url: &str, method: &str, domains: &[String]) -> Option<(String, String, u64, bool)> {
@@ -190,6 +211,7 @@ pub fn run_case(id: usize, input: &Value) {
         let i_alone = ImpactOutput::create_result(serde_json::from_value(json!({"router_config": inp["cfg"], "max_hops": max_hops, "with_redirection_loop": imp["with_loop"], "domains": domains, "rule": imp["rule"], "action": imp["action"], "rules": fin})).unwrap());
         let i_alone_j = serde_json::to_value(&i_alone).unwrap();
         let mut impact_same = proj_impacts(&serde_json::to_value(&i_proj).unwrap()) == proj_impacts(&i_alone_j);
+        let mut pipes: Vec<String> = Vec::new();
         // the response impact reports for each example of the rule = the live pipeline on the router it describes
         {
             let mut ir = Router::<Rule>::from_config(cfg.clone());
@@ -202,6 +224,7 @@ pub fn run_case(id: usize, input: &Value) {
                 let live = live_pipeline(&ir, &ex);
                 let reported = json!({"status_code": i["response"]["status_code"], "headers": i["response"]["headers"], "body": i["response"]["body"], "log": i["should_log_request"]});
                 if live.as_ref() != Some(&reported) { impact_same = false; }
+                if let Some(p) = cq_pipe(&ir, &ex, &i["backend_status_code"], &i["response"], &i["should_log_request"]) { pipes.push(p); }
             }
         }
         // 5. the reported response against the live pipeline on a router built from scratch
@@ -210,6 +233,7 @@ pub fn run_case(id: usize, input: &Value) {
         let example: Example = serde_json::from_value(inp["example"].clone()).unwrap();
         let live = live_pipeline(&fresh, &example);
         let reported = ep.as_ref().map(|o| json!({"status_code": o["response"]["status_code"], "headers": o["response"]["headers"], "body": o["response"]["body"], "log": o["should_log_request"]}));
+        if let Some(o) = ea.as_ref() { if let Some(p) = cq_pipe(&fresh, &example, &o["backend_status_code"], &o["response"], &o["should_log_request"]) { pipes.push(p); } }
         // 6. the redirect chain: one-hop table from the implementation itself (max_hops = 1), the chain for max_hops
         let fresh = Arc::new(fresh);
         let mut nodes: Vec<(String, String)> = Vec::new();
@@ -233,9 +257,9 @@ pub fn run_case(id: usize, input: &Value) {
             k += 1;
         }
         let chain = ep.as_ref().map(|o| o["redirection_loop"].clone()).unwrap_or(Value::Null);
-        (tests_same, units_same, explain_same, impact_same, live, reported, nodes, table, chain, json!({"tests": [proj_tests(&tp), proj_tests(&ta)], "many_failures": many}))
+        (tests_same, units_same, explain_same, impact_same, live, reported, nodes, table, chain, json!({"tests": [proj_tests(&tp), proj_tests(&ta)], "many_failures": many}), pipes)
     });
-    let (tests_same, units_same, explain_same, impact_same, live, reported, nodes, table, chain, extra) = match res {
+    let (tests_same, units_same, explain_same, impact_same, live, reported, nodes, table, chain, extra, pipes) = match res {
         Ok(x) => x,
         Err(e) => { emit(id, "", input.clone(), &["panic".to_string()], false, json!({"panic": e})); return; }
     };
@@ -248,8 +272,8 @@ pub fn run_case(id: usize, input: &Value) {
     }
     let err_code = match chain["error"].as_str() { None => 0, Some("AtLeastOneHop") => 1, Some("TooManyHops") => 2, Some("Loop") => 3, _ => 9 };
     let has_chain = !chain.is_null() && chain_ok && table.len() == nodes.len();
-    let coq = format!("{{| k_tests_same := {}; k_units_same := {}; k_explain_same := {}; k_impact_same := {}; k_pipeline_same := {}; k_has_chain := {}; k_max := {}; k_table := {}; o_hops := {}; o_err := {} |}}",
-        cq_bool(tests_same), cq_bool(units_same), cq_bool(explain_same), cq_bool(impact_same), cq_bool(pipeline_same), cq_bool(has_chain), input["max_hops"].as_u64().unwrap(),
+    let coq = format!("{{| k_tests_same := {}; k_units_same := {}; k_explain_same := {}; k_impact_same := {}; k_pipeline_same := {}; k_pipes := {}; k_has_chain := {}; k_max := {}; k_table := {}; o_hops := {}; o_err := {} |}}",
+        cq_bool(tests_same), cq_bool(units_same), cq_bool(explain_same), cq_bool(impact_same), cq_bool(pipeline_same), cq_list(&pipes, |x| x.clone()), cq_bool(has_chain), input["max_hops"].as_u64().unwrap(),
         cq_list(&table, |(n, st, ext, sl)| format!("({}, {}, {}, {})", n, match st { None => "None".to_string(), Some((i, c)) => format!("(Some ({}, {}))", i, c) }, cq_bool(*ext), cq_bool(*sl))),
         cq_list(&hops, |(i, c)| format!("({}, {})", i, c)), err_code);
     let mut tags: Vec<String> = vec![format!("max_hops:{}", input["max_hops"]), format!("hops:{}", hops.len().min(8)), format!("err:{}", err_code)];
@@ -261,6 +285,7 @@ pub fn run_case(id: usize, input: &Value) {
     if extra["many_failures"] == json!(true) { tags.push("more-than-ten-failures".into()); }
     if let Some(l) = &live { tags.push(format!("status:{}", l["status_code"]));  }
     tags.push(format!("impact:{}", input["impact"]["action"].as_str().unwrap()));
+    tags.push(format!("pipes:{}", pipes.len().min(4)));
     let nontrivial = hops.len() >= 2 || live.as_ref().map(|l| l["status_code"] != json!(200) && l["status_code"] != json!(0)).unwrap_or(false);
     emit(id, &coq, input.clone(), &tags, nontrivial, json!({"live": live, "reported": reported, "chain": chain, "more": extra}));
 }
